@@ -95,17 +95,18 @@ type Exec struct {
 	Opts    Options
 	typeIDs map[string]int
 	// statistics
-	Inlined     map[string]bool
-	Havocs      map[string]bool
-	Assumed     map[string]bool   // library models / assumed contracts used
-	Bindings    map[string]string // interface type -> concrete type (qualified)
-	funDecls    map[string]string
-	funOrder    []string
-	globalCache map[*ssa.Global]*T
-	heapSorts   map[string]string
-	heapOrder   []string
-	axioms      []string
-	side        []T // axiom instances produced while building terms; flushed into the path condition
+	Inlined      map[string]bool
+	Havocs       map[string]bool
+	Assumed      map[string]bool   // library models / assumed contracts used
+	Bindings     map[string]string // interface type -> concrete type (qualified)
+	funDecls     map[string]string
+	funOrder     []string
+	globalCache  map[*ssa.Global]*T
+	heapSorts    map[string]string
+	heapOrder    []string
+	axioms       []string
+	placeholders map[string]string
+	side         []T // axiom instances produced while building terms; flushed into the path condition
 }
 
 type Options struct {
